@@ -349,6 +349,14 @@ class Driver:
                               % (oid, serial, type(e).__name__, want[0]))
                 st.tpc_abort(t)
                 return 'conflict'
+            except Exception as e:      # noqa: B902
+                # a store is accepted or refused with a conflict error
+                self.flag('store-raises', 'store(%r, serial=%r) raised %s: '
+                          '%s (model says %s)' % (oid, serial,
+                                                  type(e).__name__,
+                                                  str(e)[:60], want[0]))
+                st.tpc_abort(t)
+                return 'store-raises'
             if want[0] == 'resolved?':
                 want = ('resolved', want[1])
             if want[0] == 'conflict':
